@@ -171,9 +171,13 @@ def outcome_of_exception(e):
             str_ok = isinstance(s, str)
         except Exception:
             str_ok = False
-        return {"err": "unpacking" if e.was_error_found_in_unpacking_phase else "packing",
-                "stack": [[o, f, c] for o, f, c in e.fields_stack], "str_ok": str_ok,
-                "msg": str(e.original_error_message)[:120]}
+        try:
+            phase = "unpacking" if e.was_error_found_in_unpacking_phase else "packing"
+            stack = [[o, f, c] for o, f, c in e.fields_stack]
+        except Exception as e2:         # a PacketError without its phase flag / stack: outside the contract
+            return {"exc": "MalformedPacketError", "msg": "%s: %s" % (type(e2).__name__, str(e2)[:150])}
+        return {"err": phase, "stack": stack, "str_ok": str_ok,
+                "msg": str(getattr(e, 'original_error_message', '<no original_error_message>'))[:120]}
     return {"exc": type(e).__name__, "msg": str(e)[:200]}
 
 
